@@ -82,22 +82,34 @@ def validate(sc, R, metas, selftest_from):
             for f in meta["trace_files"]:
                 with open(f, "rb") as src:
                     shutil.copyfileobj(src, out)
-    bad_fp, bad_line = corrupted_copy(sc, selftest_from)
-    val = V.validate_traces(sc, "Scheduler", "SchedulerTraceMC.tla", "SchedulerTrace.cfg", [allfp, bad_fp], timeout=2400)
-    mine = [r for r in val["rejections"] if r[0] == bad_fp]
-    val["rejections"] = [r for r in val["rejections"] if r[0] != bad_fp]
-    lines_rej = [r[1] for r in mine]
-    if lines_rej == [bad_line]:
-        V.log("self-test: corrupted occurrence at line %d rejected" % bad_line)
-    elif len(lines_rej) == 1 and lines_rej[0] is not None and lines_rej[0] < bad_line and val["rejections"]:
-        # the recorded trace is itself rejected before the corrupted line (a genuine rejection, reported below)
-        V.log("self-test: the trace is already rejected at line %d, before the corrupted line %d" % (lines_rej[0], bad_line))
-    else:
-        raise V.Broken("self-test: a trace with a corrupted occurrence (line %d) was not rejected there (%s)" % (bad_line, lines_rej))
+    anystuck = any(ex.get("stuck") for _, ex in metas)
+    bad = corrupted_copy(sc, selftest_from)
+    if bad is None and not anystuck:
+        raise V.Broken("self-test: no recorded trace file starts with complete traces containing two executions")
+    val = V.validate_traces(sc, "Scheduler", "SchedulerTraceMC.tla", "SchedulerTrace.cfg", [allfp] + ([bad[0]] if bad else []), timeout=2400)
+    if bad:
+        bad_fp, bad_line = bad
+        mine = [r for r in val["rejections"] if r[0] == bad_fp]
+        val["rejections"] = [r for r in val["rejections"] if r[0] != bad_fp]
+        lines_rej = [r[1] for r in mine]
+        if lines_rej == [bad_line]:
+            V.log("self-test: corrupted occurrence at line %d rejected" % bad_line)
+        elif len(lines_rej) == 1 and lines_rej[0] is not None and lines_rej[0] < bad_line and val["rejections"]:
+            # the recorded trace is itself rejected before the corrupted line (a genuine rejection, reported below)
+            V.log("self-test: the trace is already rejected at line %d, before the corrupted line %d" % (lines_rej[0], bad_line))
+        else:
+            raise V.Broken("self-test: a trace with a corrupted occurrence (line %d) was not rejected there (%s)" % (bad_line, lines_rej))
     val["accepted"] = not val["rejections"]
     R.states += val["states"]
     R.handle_validation(val)
     for _, ex in metas:
+        if ex.get("stuck"):
+            # a scheduler instance stopped responding within the harness' deadlines.  What it did before is recorded
+            # and judged above; if none of it is wrong the check cannot tell a slow machine, a harness problem or a
+            # scheduler that only runs things late (never a verdict under a mock clock) apart: broken, exit 2.
+            if val["accepted"]:
+                raise V.Broken("the scheduler under test got stuck and no recorded trace is rejected: " + "; ".join(ex["stuck"][:3]))
+            V.log("note: a scheduler instance also got stuck: " + ex["stuck"][0])
         if ex.get("behaviours_skipped_after_too_many_cut_short", 0) and val["accepted"]:
             # the replayer lost step with the code again and again, yet nothing it recorded is wrong: the Impl model
             # (timer, s.when, worker hand-over) or the harness no longer matches the code.  Not a verdict.
@@ -146,23 +158,26 @@ def simulate(sc, n, seed, procs):
     return out, got
 
 
-def corrupted_copy(sc, trace_file):
+def corrupted_copy(sc, trace_files):
     """The binding must bite: one recorded field of a real trace is corrupted (an execution claims the occurrence
-    after the one that was due); the trace specification has to reject exactly that line.  Returns (file, line)."""
-    lines = open(trace_file).read().splitlines()[:400]
-    ends = [i for i, ln in enumerate(lines) if '"ev":"End"' in ln]
-    starts = [i for i, ln in enumerate(lines) if '"ev":"ExecStart"' in ln and (not ends or i < ends[-1])]
-    if not ends or len(starts) < 2:
-        raise V.Broken("self-test: the first trace file has no complete trace with two executions")
-    lines = lines[:ends[-1] + 1]
-    k = starts[1]
-    ev = json.loads(lines[k])
-    ev["occ"] += 1
-    lines[k] = json.dumps(ev, separators=(",", ":"))
-    fp = os.path.join(sc.sub("selftest"), "corrupted.ndjson")
-    with open(fp, "w") as f:
-        f.write("\n".join(lines) + "\n")
-    return fp, k + 1
+    after the one that was due); the trace specification has to reject exactly that line.  Returns (file, line),
+    or None if no recorded file starts with complete traces containing two executions."""
+    for trace_file in trace_files:
+        lines = open(trace_file).read().splitlines()[:400]
+        ends = [i for i, ln in enumerate(lines) if '"ev":"End"' in ln]
+        starts = [i for i, ln in enumerate(lines) if '"ev":"ExecStart"' in ln and (not ends or i < ends[-1])]
+        if not ends or len(starts) < 2:
+            continue
+        lines = lines[:ends[-1] + 1]
+        k = starts[1]
+        ev = json.loads(lines[k])
+        ev["occ"] += 1
+        lines[k] = json.dumps(ev, separators=(",", ":"))
+        fp = os.path.join(sc.sub("selftest"), "corrupted.ndjson")
+        with open(fp, "w") as f:
+            f.write("\n".join(lines) + "\n")
+        return fp, k + 1
+    return None
 
 
 def run(sc, tier, seed):
@@ -190,7 +205,7 @@ def run(sc, tier, seed):
     m2 = replay_real(sc, R, tier, seed, beh, lanes, "drv-c17-sim", [])
     meta = m2[0]
     # ---- TLC decides every recorded execution ----
-    validate(sc, R, [m1, m2], meta["trace_files"][0])
+    validate(sc, R, [m1, m2], meta["trace_files"] + m1[0]["trace_files"])
     reruns = meta["extra"]["random_part"].get("observation_occurrence_reruns_across_epochs", 0)
     if reruns:
         V.log("OBSERVATION property=C17: %d occurrence(s) were executed again after a re-Schedule (allowed by the per-epoch reading)" % reruns)
